@@ -22,6 +22,7 @@ type varKey struct {
 
 type loopCtx struct {
 	brk, cont *Node
+	label     string // the label of the statement, if it has one
 }
 
 type Builder struct {
@@ -40,6 +41,9 @@ type Builder struct {
 	// fnBind: locals currently bound to one static function (the value variable
 	// of an unrolled range over a table of functions)
 	fnBind map[types.Object]*types.Func
+	// nextLabel: label of the statement being built (consumed by the loop /
+	// switch context it pushes)
+	nextLabel string
 }
 
 // buildGraph builds the inlined graph of a product function.
@@ -289,7 +293,7 @@ func (b *Builder) stmt(s ast.Stmt) {
 		} else {
 			b.jump(body)
 		}
-		b.loops = append(b.loops, loopCtx{brk: done, cont: post})
+		b.loops = append(b.loops, loopCtx{brk: done, cont: post, label: b.takeLabel()})
 		body.Note = "forbody"
 		body.LoopID = head.LoopID
 		b.start(body)
@@ -321,8 +325,29 @@ func (b *Builder) stmt(s ast.Stmt) {
 		b.returnStmt(s)
 	case *ast.BranchStmt:
 		if s.Label != nil {
-			b.unsupported(s.Pos(), "labelled branch")
-			b.cur = nil
+			var tgt *Node
+			for i := len(b.loops) - 1; i >= 0; i-- {
+				if b.loops[i].label == s.Label.Name {
+					if s.Tok == token.BREAK {
+						tgt = b.loops[i].brk
+					} else if s.Tok == token.CONTINUE {
+						tgt = b.loops[i].cont
+					}
+					break
+				}
+			}
+			if tgt == nil {
+				b.unsupported(s.Pos(), "labelled branch (goto or unknown label)")
+				b.cur = nil
+				return
+			}
+			n := b.newNode(NNop, s.Pos())
+			n.Note = "break"
+			if s.Tok == token.CONTINUE {
+				n.Note = "continue"
+			}
+			b.emit(n)
+			b.jump(tgt)
 			return
 		}
 		switch s.Tok {
@@ -363,7 +388,7 @@ func (b *Builder) stmt(s ast.Stmt) {
 		n := b.newNode(NSelect, s.Pos())
 		b.emit(n)
 		done := b.label()
-		b.loops = append(b.loops, loopCtx{brk: done})
+		b.loops = append(b.loops, loopCtx{brk: done, label: b.takeLabel()})
 		for _, c := range s.Body.List {
 			cc := c.(*ast.CommClause)
 			l := b.label()
@@ -387,8 +412,15 @@ func (b *Builder) stmt(s ast.Stmt) {
 		b.pending = append(b.pending, mk("call", "chansend", ch, v))
 		b.flush(s.Pos())
 	case *ast.LabeledStmt:
-		b.unsupported(s.Pos(), "labelled statement")
+		switch s.Stmt.(type) {
+		case *ast.ForStmt, *ast.RangeStmt, *ast.SwitchStmt, *ast.TypeSwitchStmt, *ast.SelectStmt:
+			b.nextLabel = s.Label.Name
+		default:
+			// a label that only a goto could use
+			b.unsupported(s.Pos(), "labelled statement")
+		}
 		b.stmt(s.Stmt)
+		b.nextLabel = ""
 	default:
 		b.unsupported(s.Pos(), fmt.Sprintf("statement %T", s))
 	}
@@ -753,7 +785,7 @@ func (b *Builder) rangeStmtX(s *ast.RangeStmt, x *Term) {
 	b.emit(h1)
 	h1.Succ = []*Node{body, done}
 	h2.Succ = []*Node{body, done}
-	b.loops = append(b.loops, loopCtx{brk: done, cont: h2})
+	b.loops = append(b.loops, loopCtx{brk: done, cont: h2, label: b.takeLabel()})
 	b.start(body)
 	b.stmt(s.Body)
 	b.jump(h2)
@@ -770,7 +802,7 @@ func (b *Builder) switchStmt(s *ast.SwitchStmt) {
 		tag = varTerm(tv)
 	}
 	done := b.label()
-	b.loops = append(b.loops, loopCtx{brk: done})
+	b.loops = append(b.loops, loopCtx{brk: done, label: b.takeLabel()})
 	type clause struct {
 		l  *Node
 		cc *ast.CaseClause
@@ -835,7 +867,7 @@ func (b *Builder) typeSwitchStmt(s *ast.TypeSwitchStmt) {
 	b.assignVar(xv, b.expr(xe), s.Pos())
 	x := varTerm(xv)
 	done := b.label()
-	b.loops = append(b.loops, loopCtx{brk: done})
+	b.loops = append(b.loops, loopCtx{brk: done, label: b.takeLabel()})
 	type clause struct {
 		l  *Node
 		cc *ast.CaseClause
@@ -1206,7 +1238,7 @@ func (b *Builder) unrollFuncTable(s *ast.RangeStmt, fns []*types.Func) {
 			b.assignVar(v, &Term{Op: "fn", Name: b.P.abbrev(fn.FullName())}, s.Pos())
 		}
 		b.fnBind[obj] = fn
-		b.loops = append(b.loops, loopCtx{brk: done, cont: next})
+		b.loops = append(b.loops, loopCtx{brk: done, cont: next, label: b.takeLabel()})
 		b.stmt(s.Body)
 		b.loops = b.loops[:len(b.loops)-1]
 		b.jump(next)
@@ -1249,4 +1281,10 @@ func (b *Builder) counterAsRange(s *ast.ForStmt) (*ast.RangeStmt, bool) {
 		return nil, false
 	}
 	return &ast.RangeStmt{For: s.For, Key: id, Tok: token.DEFINE, X: y, Body: s.Body}, butLast
+}
+
+func (b *Builder) takeLabel() string {
+	l := b.nextLabel
+	b.nextLabel = ""
+	return l
 }
